@@ -151,9 +151,11 @@ class FortranRegularExpressions:
     SCOPE_DEF: Pattern = compile(
         r"[ ]*(MODULE|PROGRAM|SUBROUTINE|FUNCTION|INTERFACE)[ ]+", I
     )
+    # END statement being typed; not a name starting with "end" or END FILE <unit>
     END: Pattern = compile(
-        r"[ ]*(END)("
-        r" |MODULE|PROGRAM|SUBROUTINE|FUNCTION|PROCEDURE|TYPE|DO|IF|SELECT)?",
+        r"[ ]*(END)(?![ ]*FILE\b)("
+        r" |$|(?:DO|WHERE|IF|BLOCK|CRITICAL|ASSOCIATE|SELECT|TYPE|ENUM|MODULE"
+        r"|SUBMODULE|PROGRAM|INTERFACE|SUBROUTINE|FUNCTION|PROCEDURE|FORALL)\b)",
         I,
     )
     # Object regex patterns
